@@ -1,6 +1,7 @@
 import MirVerif.Lemmas.Footprint
 import MirVerif.Model.FootprintAllowed
 import MirVerif.Model.FootprintPages
+import MirVerif.Model.FootprintHandover
 import MirVerif.Gen.C18_Inventory
 /-!
 # C18 — independent contexts can be used from different threads without interference
@@ -324,5 +325,77 @@ example : let owner := fun p => if p < 6 then 1 else 2
   rw [a] at h1; rw [b] at h2
   have : p = 5 := by omega
   subst this; decide
+
+/-! ## 4. Module hand-over (`MIR_change_module_ctx`): ownership after the call
+
+Model `Model/FootprintHandover.lean`; tie: ownership monitor + poisoning allocator in
+`harness/c18_handover.c`, judged by `mirdrv_c18 ho`. -/
+
+/-- after the hand-over every string the module refers to is owned by the new context -/
+theorem handover_owned (new : Nat) (m : Mod) : ∀ r ∈ (changeCtx new m).refs, r.owner = new := by
+  intro r hr
+  simp only [changeCtx, List.mem_map] at hr
+  obtain ⟨r0, _, rfl⟩ := hr
+  rfl
+
+/-- … and the old context's item table has no entry of the module left -/
+theorem handover_tab_clean (old new : Nat) (m : Mod) (tab : ItemTab) (h : old ≠ new) :
+    ∀ e ∈ tabMove old new m tab, ¬ (e.1 = old ∧ e.2.1 = m.id) := by
+  intro e he
+  simp only [tabMove, List.mem_map] at he
+  obtain ⟨e0, _, rfl⟩ := he
+  cases hc : (e0.1 == old && e0.2.1 == m.id) with
+  | true =>
+    simp only [if_true]
+    intro hh; exact h hh.1.symm
+  | false =>
+    simp only [Bool.false_eq_true, if_false]
+    intro hh
+    have : (e0.1 == old && e0.2.1 == m.id) = true := by simp [hh.1, hh.2]
+    rw [hc] at this; cases this
+
+theorem handover_monitor_ok (old new : Nat) (m : Mod) (tab : ItemTab) (h : old ≠ new) :
+    handoverOk old new (changeCtx new m) (tabMove old new m tab) = true := by
+  simp only [handoverOk, Bool.and_eq_true, List.all_eq_true]
+  constructor
+  · intro r hr; simp [handover_owned new m r hr]
+  · intro e he
+    have := handover_tab_clean old new m tab h e he
+    cases h1 : (e.1 == old) <;> cases h2 : (e.2.1 == (changeCtx new m).id) <;> simp
+    exact this ⟨by simpa using h1, by simpa [changeCtx] using h2⟩
+
+/-- **Independence after a hand-over.**  Using the handed-over module in the new context is an operation
+confined to the new context (so `interleaving_irrelevant` applies to both contexts again). -/
+theorem use_after_handover_confined (new id : Nat) (m : Mod) :
+    (useOp new id (changeCtx new m)).Confined new := by
+  constructor
+  · intro l hl
+    have : l = Loc.ctx new 0 := by simpa [useOp, mkOp] using hl
+    subst this; simp [Loc.isCtx]
+  · intro l hl
+    have hm : l ∈ (changeCtx new m).refs.map (fun r => Loc.ctx r.owner r.str) := by
+      simpa [useOp, mkOp] using hl
+    obtain ⟨r, hr, rfl⟩ := List.mem_map.mp hm
+    simp [Loc.visible, Loc.isCtx, handover_owned new m r hr]
+
+/-- One reference left with another owner couples the two contexts: the use is not confined. -/
+theorem stale_ref_not_confined (i id : Nat) (m : Mod) (r : Ref) (hr : r ∈ m.refs) (ho : r.owner ≠ i) :
+    ¬ (useOp i id m).Confined i := by
+  intro hc
+  have hrd : (useOp i id m).reads (Loc.ctx r.owner r.str) = true := by
+    have : Loc.ctx r.owner r.str ∈ m.refs.map (fun r => Loc.ctx r.owner r.str) :=
+      List.mem_map.mpr ⟨r, hr, rfl⟩
+    simpa [useOp, mkOp] using this
+  have := hc.2 _ hrd
+  simp [Loc.visible, Loc.isCtx, Loc.isShared] at this
+  exact ho this
+
+/-- non-vacuity: a module with three references of context 0 and two table entries, handed to context 1 -/
+example : let m : Mod := ⟨7, [⟨0, 1⟩, ⟨0, 2⟩, ⟨0, 5⟩]⟩
+    let tab : ItemTab := [(0, 7, 1), (0, 8, 1), (0, 7, 2)]
+    handoverOk 0 1 m tab = false ∧ handoverOk 0 1 (changeCtx 1 m) (tabMove 0 1 m tab) = true ∧
+    ¬ (useOp 1 9 m).Confined 1 := by
+  intro m tab
+  exact ⟨by decide, by decide, stale_ref_not_confined 1 9 m ⟨0, 1⟩ (by decide) (by decide)⟩
 
 end MirVerif.C18
